@@ -38,6 +38,10 @@ RULES = {
     "C07-M2": "a barycentre divides the sum of a collection by the length of that same collection; affine combinations have coefficients summing to 1",
     "C07-A1": "face_area dispatches on the number of vertices to a primitive of that arity and its polygon fan visits every side once; "
               "cell_volume is |det| of three edge vectors from a common apex over 6",
+    "C07-E1": "a per-edge quantity visits the faces on both sides of the edge (direct_face(A,B) and direct_face(B,A)) independently: "
+              "no break / return / nesting lets an absent face on one side suppress the other side",
+    "C07-E2": "no per-element quantity is guarded by a comparison of a dimensional expression (length, area, volume ...) with an absolute constant",
+    "C07-Z1": "an accumulator that is read-modify-written (+=, x = x + ..) is built in the function or reset (clear()) before the accumulation",
     "C07-X1": "closed-form primitives of geometry.py are the textbook polynomials (cross, det_2x2, det_3x3, quad_area, aspect_ratio, "
               "triangle_area) and angle primitives take both vectors from the central point",
 }
@@ -55,6 +59,9 @@ def run(ctx):
     m2_barycentres(ctx)
     a1_area_volume(ctx)
     x1_primitives(ctx)
+    e1_edge_sides(ctx)
+    e2_absolute_thresholds(ctx)
+    z1_reset_before_accumulate(ctx)
 
 
 def top_funcs(ctx, modname):
@@ -1122,3 +1129,173 @@ def x1_primitives(ctx):
             ok = z_ok and y_ok and norm_ok
     ctx.check(ok, R, site, "face_basis: not the right-handed frame X = AB/|AB|, Z = X x AC normalised, Y = Z x X",
               "local face coordinates (gradient, connections, normals) assume cross(X, Y) = Z = the face normal", note="right-handed face frame")
+
+
+# ----------------------------------------------------------------------- C07-E1
+def edge_sides_rule(ctx, rule, targets):
+    """targets: [(module, qualname)] of per-edge functions that must visit the faces on both sides of every edge"""
+    n = 0
+    for modname, q in targets:
+        fn = ctx.repo.func(modname, q)
+        sites = H.edge_side_sites(fn)
+        if not sites:
+            ctx.fail(rule, ctx.site(modname, fn), f"{q}: visit of the faces on the two sides of each edge (direct_face(A,B) / direct_face(B,A) or "
+                     f"edge_to_faces) inside `for e,(A,B) in enumerate(mesh.edges)` not found",
+                     "a per-edge quantity built from the adjacent faces must look at both sides of the edge")
+            continue
+        for s in sites:
+            n += 1
+            if not s["problems"]:
+                ctx.ok(rule, ctx.site(modname, fn, s["loop"]), f"{q}: both sides of edge {s['ends']} are visited independently ({s['kind']})")
+            for node, text in s["problems"]:
+                ctx.fail(rule, ctx.site(modname, fn, node), f"{q}: {text}",
+                         "every face adjacent to an edge contributes, whichever side it lies on: an edge of the border whose only face is on the "
+                         "second side would otherwise get no contribution at all")
+    return n
+
+
+def e1_edge_sides(ctx):
+    n = edge_sides_rule(ctx, "C07-E1", [("attributes.attr_edges", "cotan_weights")])
+    # any other per-edge function of the attribute modules using the same idiom is held to the same rule
+    for modname in ATTR_MODS:
+        for q, fn in top_funcs(ctx, modname):
+            if q == "cotan_weights":
+                continue
+            for s in H.edge_side_sites(fn):
+                n += 1
+                for node, text in s["problems"]:
+                    ctx.fail("C07-E1", ctx.site(modname, fn, node), f"{q}: {text}", "every face adjacent to an edge contributes")
+                if not s["problems"]:
+                    ctx.ok("C07-E1", ctx.site(modname, fn, s["loop"]), f"{q}: both sides visited")
+    ctx.require_count("C07-E1 two-sided edge loops", n, 1)
+
+
+# ----------------------------------------------------------------------- C07-E2
+_E2_FIXTURE = """
+def f(mesh, normals):
+    for iT, T in enumerate(mesh.faces):
+        pA, pB, pC = (mesh.vertices[u] for u in T[:3])
+        N = geom.cross(pB - pA, pC - pA)
+        if geom.norm(N) < 1e-8: continue
+        normals[iT] = Vec.normalized(N)
+"""
+
+
+def threshold_rule(ctx, rule, modules):
+    tree = ast.parse(_E2_FIXTURE)
+    for x in ast.walk(tree):
+        for c in ast.iter_child_nodes(x):
+            c._parent = x
+    fx = list(H.threshold_compares(tree.body[0]))
+    if len(fx) != 1 or fx[0][3] != 2:
+        raise AnalysisError(f"{rule}: built-in fixture (|cross| < 1e-8, degree 2) not recognised by the matcher: {fx}")
+    n = 0
+    for modname in modules:
+        m = ctx.repo.module(modname)
+        for q, fn in m.funcs.items():
+            if "<locals>" in q:
+                continue
+            for node, expr, lit, deg in H.threshold_compares(fn):
+                n += 1
+                ctx.check(deg == 0, rule, ctx.site(modname, fn, node),
+                          f"{q}: `{au.src(node)}` compares `{au.src(expr)}` (a length to the power {deg:g}) with the absolute constant {lit:g}",
+                          "the outcome of the test changes under a uniform scaling of the mesh: well-shaped elements of a mesh given in small "
+                          "(or large) units are treated differently, so the quantity neither scales with the right power nor stays invariant",
+                          note=f"{q}: `{au.src(node)}` is dimensionless")
+    return n
+
+
+def e2_absolute_thresholds(ctx):
+    n = threshold_rule(ctx, "C07-E2", ALL_ATTR + [GEOM])
+    ctx.require_count("C07-E2 comparisons with a literal of known dimension", n, 1)
+
+
+# ----------------------------------------------------------------------- C07-Z1
+FRESH_CALLS = {"create_attribute", "ArrayAttribute", "Attribute", "zeros", "ones", "full", "empty", "dict", "list", "set", "zeros_like"}
+# Output attributes that the pinned code accumulates onto without resetting them (every caller in the repository passes a
+# freshly built attribute).  Frozen so that the rule stays silent on the pinned behaviour; reported as an observation.
+Z1_PINNED_NO_RESET = {
+    ("attributes.interpolate", "interpolate_faces_to_vertices", "vattr"),
+    ("attributes.interpolate", "average_corners_to_vertices", "vattr"),
+    ("attributes.interpolate", "average_corners_to_faces", "fattr"),
+}
+
+
+def _is_fresh(e):
+    if isinstance(e, ast.IfExp):
+        return _is_fresh(e.body) and _is_fresh(e.orelse)
+    if isinstance(e, ast.Call):
+        return au.call_tail(e) in FRESH_CALLS
+    if isinstance(e, (ast.List, ast.Dict, ast.Set, ast.ListComp, ast.DictComp)):
+        return True
+    if isinstance(e, ast.Constant) and isinstance(e.value, (int, float)):
+        return True
+    return False
+
+
+def _rmw(st):
+    """(base name, key) if st reads and rewrites base[key] (+=, -=, base[k] = base[k] + ..)"""
+    if isinstance(st, ast.AugAssign) and isinstance(st.target, ast.Subscript) and isinstance(st.target.value, ast.Name) \
+            and isinstance(st.op, (ast.Add, ast.Sub)):
+        return st.target.value.id, st.target.slice
+    if isinstance(st, ast.Assign) and len(st.targets) == 1 and isinstance(st.targets[0], ast.Subscript) \
+            and isinstance(st.targets[0].value, ast.Name) and isinstance(st.value, ast.BinOp) and isinstance(st.value.op, (ast.Add, ast.Sub)):
+        key = au.norm(st.targets[0]).replace("Store()", "Load()")
+        if any(au.norm(x) == key for x in (st.value.left, st.value.right)):
+            return st.targets[0].value.id, st.targets[0].slice
+    return None
+
+
+def _top_stmt(fn, node):
+    top = node
+    while au.parent(top) is not fn and au.parent(top) is not None:
+        top = au.parent(top)
+    return top
+
+
+def z1_reset_before_accumulate(ctx):
+    n = 0
+    for modname in ALL_ATTR:
+        for q, fn in top_funcs(ctx, modname):
+            params = set(au.params(fn))
+            done = set()
+            for st in au.stmts(fn.body):
+                r = _rmw(st)
+                if not r or r[0] in done:
+                    continue
+                base, key = r
+                done.add(base)
+                n += 1
+                site = ctx.site(modname, fn, st)
+                binds = [v for s in au.stmts(fn.body) for nm, v in sym.split_assign(s) if nm == base]
+                other = [s for s in au.stmts(fn.body) if sym.Bindings._assigns(s, base, deep=False) and not list(sym.split_assign(s))]
+                fresh = bool(binds) and base not in params and not other and all(_is_fresh(v) for v in binds)
+                # explicit reset dominating the accumulation: base.clear() at the top level before it, or base[key] = const in the
+                # same loop body before it
+                top = _top_stmt(fn, st)
+                cleared = False
+                for s in fn.body:
+                    if s is top:
+                        break
+                    if isinstance(s, ast.Expr) and isinstance(s.value, ast.Call) and au.call_tail(s.value) in ("clear", "fill") \
+                            and isinstance(s.value.func, ast.Attribute) and au.src(s.value.func.value) == base:
+                        cleared = True
+                per_elem = False
+                for a in au.ancestors(st):
+                    if isinstance(a, ast.For):
+                        for s in a.body:
+                            if s.lineno >= st.lineno:
+                                break
+                            if isinstance(s, ast.Assign) and len(s.targets) == 1 and isinstance(s.targets[0], ast.Subscript) \
+                                    and au.src(s.targets[0].value) == base and not _rmw(s) \
+                                    and base not in au.names(s.value) and _top_stmt(a, st) is not s:
+                                per_elem = per_elem or au.same(s.targets[0].slice, key)
+                pinned = (modname, q, base) in Z1_PINNED_NO_RESET
+                ok = fresh or cleared or per_elem or pinned
+                how = "fresh" if fresh else "cleared" if cleared else "reset per element" if per_elem else "pinned: accumulates onto the caller's attribute"
+                ctx.check(ok, "C07-Z1", site,
+                          f"{q}: `{au.src(st)}` accumulates onto `{base}` which is neither built in the function nor reset (`{base}.clear()`) before the loop",
+                          f"calling the function again with the same output attribute (or with one that already holds values) adds the new sum to "
+                          f"the old content: the result is (old + sum)/n instead of sum/n",
+                          note=f"{q}: accumulator `{base}` is {how}")
+    ctx.require_count("C07-Z1 read-modify-write accumulators", n, 6)
